@@ -404,3 +404,92 @@ func Merge(b0, b1 bpv7.Bundle, m uint64, both bool, order, ackOrder []int) (res 
 	_ = bb.tm.Close()
 	return
 }
+
+// SendWithMRU runs TransferManager.Send towards a peer that declared the given segment MRU during session
+// setup (the harness acknowledges every segment). It reports how Send ended.
+func SendWithMRU(b bpv7.Bundle, mru uint64) (outcome string, segments int) {
+	defer func() {
+		if r := recover(); r != nil {
+			outcome = fmt.Sprintf("PANIC: %v", r)
+		}
+	}()
+	vtime.SetVirtual(vtime.Epoch)
+	in := make(chan msgs.Message)
+	out := make(chan msgs.Message)
+	var tm *utils.TransferManager
+	func() {
+		defer func() {
+			if r := recover(); r != nil {
+				outcome = fmt.Sprintf("PANIC: %v", r)
+			}
+		}()
+		tm = utils.NewTransferManager(in, out, mru)
+	}()
+	if tm == nil {
+		return
+	}
+	stop := make(chan struct{})
+	var mu sync.Mutex
+	go func() {
+		acked := 0
+		for {
+			select {
+			case <-stop:
+				return
+			case m := <-out:
+				if s, ok := m.(*msgs.DataTransmissionMessage); ok {
+					mu.Lock()
+					segments++
+					n := segments
+					mu.Unlock()
+					acked += len(s.Data)
+					if n > 100000 {
+						continue // a spinning sender: stop acknowledging, the harness gives up below
+					}
+					select {
+					case in <- msgs.NewDataAcknowledgementMessage(s.Flags, s.TransferId, uint64(acked)):
+					case <-stop:
+						return
+					}
+				}
+			}
+		}
+	}()
+	ret := make(chan error, 1)
+	go func() {
+		defer func() {
+			if r := recover(); r != nil {
+				ret <- fmt.Errorf("PANIC: %v", r)
+			}
+		}()
+		ret <- tm.Send(b)
+	}()
+	deadline := time.Now().Add(20 * time.Second)
+	for {
+		select {
+		case err := <-ret:
+			close(stop)
+			_ = tm.Close()
+			mu.Lock()
+			defer mu.Unlock()
+			if err != nil {
+				return "error: " + err.Error(), segments
+			}
+			return "ok", segments
+		default:
+		}
+		mu.Lock()
+		n := segments
+		mu.Unlock()
+		if n > 100000 {
+			close(stop)
+			return "SPIN: more than 100000 segments for one small bundle", n
+		}
+		if time.Now().After(deadline) {
+			close(stop)
+			return "HANG", n
+		}
+		time.Sleep(100 * time.Microsecond)
+		vtime.Advance(11 * time.Second)
+	}
+}
